@@ -17,7 +17,13 @@ if REPO_SRC not in sys.path:
 # guard for source hooks (none exist in /repo; recorded in MANIFEST.hooks)
 os.environ.setdefault("HASHSTORE_VERIF", "1")
 
-logging.disable(logging.CRITICAL)
+if os.environ.get("HSVERIF_LOGLEVEL") == "DEBUG":
+    # some shards run with DEBUG logging switched ON (into a null handler): code that only runs when a log level is
+    # enabled - an `isEnabledFor(DEBUG)` branch, the arguments of a debug call - must not change what the store does
+    logging.getLogger().handlers[:] = [logging.NullHandler()]
+    logging.getLogger().setLevel(logging.DEBUG)
+else:
+    logging.disable(logging.CRITICAL)
 
 DEFAULT_NS = "https://ns.dataone.org/service/types/v2.0#SystemMetadata"
 STORE_ALGOS = {"MD5": "md5", "SHA-1": "sha1", "SHA-256": "sha256", "SHA-384": "sha384",
